@@ -72,6 +72,13 @@ partial def encTree (st : St) (x : Nat) : Json :=
         ("a", jarr (n.attrs.map jstr)),
         ("v", match n.vals with | some c => encItems st.h (st.h.vcell c) | none => Json.null),
         ("m", match n.merged with | some m => idxOf st.objs m | none => Json.null),
+        -- what the object answers for its repository (`get_repository()`): its own or the one of the
+        -- nearest object above it that has one
+        ("r", match n.kind with
+              | .prop => Json.null
+              | _ => match inherited st.h (st.h.nN + 1) x repoAttr with
+                     | some v => jstr v
+                     | none => Json.null),
         ("s", jarr (n.secs.map (encTree st))), ("p", jarr (n.props.map (encTree st)))]
 
 def snap (st : St) : Json :=
